@@ -1169,6 +1169,17 @@ def parse_http_date(date_str: str | None) -> datetime.datetime | None:
     return None
 
 
+def _has_zero_weight(coding: str) -> bool:
+    """Check if an Accept-Encoding list member has the weight 0 (";q=0")."""
+    name, _, value = coding.partition(";")[2].partition("=")
+    if name.strip() != "q":
+        return False
+    try:
+        return float(value) == 0
+    except ValueError:
+        return False
+
+
 @functools.lru_cache
 def must_be_empty_body(method: str, code: int) -> bool:
     """Check if a request must return an empty body."""
